@@ -70,6 +70,8 @@ UMerge == << EBase,
              EArgs(Args(<<Sc(600000, TRUE), Sc(6, FALSE), Ag(<<Sc(700000, TRUE), Sc(2, FALSE)>>, TRUE)>>, TRUE)),
              EArgs(Args(<<Sc(600000, TRUE), Sc(5, FALSE), Ag(<<Sc(700000, TRUE), Sc(3, FALSE)>>, TRUE)>>, TRUE)),
              [EBase EXCEPT !.fr[2].args = Args(<<Sc(2, FALSE)>>, FALSE)],
+             \* the same non-pointer value, marked inaccurate ('?'): same class as EBase at every level
+             EArgs(Args(<<Sc(600000, TRUE), Inacc(Sc(5, FALSE)), Ag(<<Sc(700000, TRUE), Sc(2, FALSE)>>, TRUE)>>, TRUE)),
              \* locked AND a different non-pointer value: a second bucket that is locked too and ties with the first
              [EArgs(Args(<<Sc(600000, TRUE), Sc(6, FALSE), Ag(<<Sc(700000, TRUE), Sc(2, FALSE)>>, TRUE)>>, TRUE)) EXCEPT !.locked = TRUE]
           >>
